@@ -501,3 +501,16 @@ func normalize(v reflect.Value) {
 		}
 	}
 }
+
+// otherTraffic: what else the codec is asked to do around the value under test - a value that is refused half
+// way through its serialisation (a nil mandatory object after an int field), and, when ok, a different value that
+// is serialised successfully.  Results handed out earlier must not change, and a later result must not contain
+// leftovers of an earlier call (buffers shared between calls, e.g. pooled ones, are the way both go wrong).
+func otherTraffic(ok bool) {
+	verifrt.Catch(func() { _, _ = tl.Marshal(&InvokeWithLayerParams{Layer: verifrt.I32(), Query: nil}) })
+	if ok {
+		verifrt.Catch(func() {
+			_, _ = tl.Marshal(&InvokeWithLayerParams{Layer: verifrt.I32(), Query: &InvokeWithLayerParams{Layer: verifrt.I32(), Query: &HelpGetConfigParams{}}})
+		})
+	}
+}
